@@ -246,6 +246,25 @@ Proof.
   cbn [is_int]. rewrite pick_pos by lia. rewrite (index_row_vector cells i) by lia. reflexivity.
 Qed.
 
+(* ------------------------------------------------ MATCH's range argument *)
+(* match() unpacks its range: a single row is searched as it is, anything else
+   through its first column — so the theorems on [match_] are theorems on MATCH *)
+Lemma match_shape_row v cells mt :
+  lookup.f_match v (VTuple [VTuple cells]) mt = match_ v (VTuple cells) mt.
+Proof. unfold lookup.f_match. py_run. reflexivity. Qed.
+
+Lemma match_shape_col v w rows mt : rect w rows -> 1 <= w -> zlen rows <> 1 ->
+  lookup.f_match v (VTuple rows) mt = match_ v (VTuple (col_of 0 rows)) mt.
+Proof.
+  intros Hr Hw Hh. unfold lookup.f_match. py_run. fold (zlen rows).
+  replace (zlen rows =? 1) with false by (symmetry; apply Z.eqb_neq; exact Hh).
+  rewrite (genexp_first_col w rows Hr Hw). py_run. reflexivity.
+Qed.
+Example ex_match_shape_col :
+  rect 1 [VTuple [VInt 1]; VTuple [VInt 2]]
+  /\ lookup.f_match (VInt 2) (VTuple [VTuple [VInt 1]; VTuple [VInt 2]]) (VInt 0) = Ok (VInt 2).
+Proof. split; [repeat constructor; eexists; split; reflexivity|vm_compute; reflexivity]. Qed.
+
 (* ------------------------------------------------------ examples (non-vacuity) *)
 Definition t32 := [VTuple [VInt 1; s_a]; VTuple [VInt 2; s_b]; VTuple [VInt 3; s_B]].
 Example ex_lookup_tall : rect 2 t32 /\ lookup.f_lookup (VFloat (5 # 2)) (VTuple t32) VNone = Ok s_b.
